@@ -99,6 +99,9 @@ class Function(object):
                     b.insts.append(ins)
                     self.insts[ins.id] = ins
                 b.all_insts = list(b.insts)
+                # C++ unwind edges are not modelled (the library raises errors by longjmp only)
+                if b.insts and b.insts[-1].op == "invoke" and b.insts[-1].d.get("normal"):
+                    b.succs = [b.insts[-1].d["normal"]]
                 self.blocks.append(b)
                 self.bmap[b.name] = b
         self._dom = None
